@@ -282,6 +282,7 @@ type chanState struct {
 	closeClk  VC
 	recvDone  int
 	sendsDone int
+	weak      bool // a blocking multi-case select waited on it: FIFO matching unknown
 }
 
 // Current is the run hooks are dispatched to.
@@ -695,6 +696,24 @@ func (s *Sim) collect() {
 	s.arrivals = nil
 	sort.Slice(arr, func(i, j int) bool { return arr[i].ID < arr[j].ID })
 	seen := map[*G]bool{}
+	// A select case that was taken registers its operation only now (a select
+	// does not know beforehand which case it will take). Register all of them
+	// before any completion is processed: the peer of a hand-off arrives in the
+	// same step and must find the operation it was matched with.
+	for _, g := range arr {
+		p := &g.pend
+		if p.phase == phPost && p.aux == 1 && (p.kind == KSelSend || p.kind == KSelRecv) {
+			cs := s.chanOf(p)
+			if p.kind == KSelSend {
+				g.chIdx = len(cs.sendClk)
+				cs.sendClk = append(cs.sendClk, g.vc.copy())
+			} else {
+				g.chIdx = len(cs.recvClk)
+				cs.recvClk = append(cs.recvClk, g.vc.copy())
+			}
+			g.vc.tick(g.ID)
+		}
+	}
 	for _, g := range arr {
 		seen[g] = true
 		s.onArrive(g)
@@ -729,19 +748,11 @@ func (s *Sim) onArrive(g *G) {
 		s.recvDone(g, p.obj, g.chIdx)
 	case KSelSend:
 		if p.aux == 1 {
-			cs := s.chanOf(p)
-			idx := len(cs.sendClk)
-			cs.sendClk = append(cs.sendClk, g.vc.copy())
-			g.vc.tick(g.ID)
-			s.sendDone(g, p.obj, idx)
+			s.sendDone(g, p.obj, g.chIdx) // registered in collect
 		}
 	case KSelRecv:
 		if p.aux == 1 {
-			cs := s.chanOf(p)
-			idx := len(cs.recvClk)
-			cs.recvClk = append(cs.recvClk, g.vc.copy())
-			g.vc.tick(g.ID)
-			s.recvDone(g, p.obj, idx)
+			s.recvDone(g, p.obj, g.chIdx)
 		}
 	case KLock, KOnce:
 		ls := s.lockOf(p.obj)
@@ -803,6 +814,12 @@ func (s *Sim) sendDone(g *G, key uintptr, idx int) {
 		return
 	}
 	cs.sendsDone++
+	if cs.weak {
+		for _, c := range cs.recvClk {
+			g.vc.join(c)
+		}
+		return
+	}
 	// the (idx-cap)-th receive is synchronised before completion of this send
 	j := idx - cs.cap
 	if cs.cap == 0 {
@@ -819,6 +836,15 @@ func (s *Sim) recvDone(g *G, key uintptr, idx int) {
 		return
 	}
 	cs.recvDone++
+	if cs.weak {
+		for _, c := range cs.sendClk {
+			g.vc.join(c)
+		}
+		if cs.closed {
+			g.vc.join(cs.closeClk)
+		}
+		return
+	}
 	if idx < len(cs.sendClk) {
 		g.vc.join(cs.sendClk[idx])
 	} else if cs.closed {
